@@ -89,6 +89,11 @@ Theorem C18_record_size : forall sp a,
     snd (compute_flags sp) = lenN fl + 4 + 4 * fields_present sp.
 Proof. exact record_size. Qed.
 
+(* ---- the data region is header word + the announced record sizes + trailing word, and that is the data-size field of the file ---- *)
+Theorem C18_data_size : forall m b f, 4 + announced_total (ab_specs b) + 4 < 2 ^ 32 -> serialize m b = Ok f ->
+  u32_at LE f 4 = Some (4 + announced_total (ab_specs b) + 4).
+Proof. exact data_size_field. Qed.
+
 (* ---- the read loop stops at the trailing zero word ---- *)
 Theorem C18_read_loop_stops : forall b, wf_bin b ->
   exists a, build b = Ok a /\ read_u32 a (size a - 4) = Ok 0 /\ from_stream a (size a - 4) = Err EOob /\
